@@ -108,6 +108,7 @@ type Scenario struct {
 	BadFirst            bool           `json:"bad_first,omitempty"`              // misbehaving nodes are the only reachable ones until they have been dealt with
 	ServeQueries        int            `json:"serve_queries,omitempty"`          // C13: after convergence the honest node asks the service this many getheaders questions over the wire
 	ReOffend            bool           `json:"re_offend,omitempty"`              // C07: at the end a host with two connections sends the forbidden header, its ban (ban_duration_ms, seconds) elapses unnoticed, the second connection offends again, and a newcomer of that host must be refused
+	IdleSec             int            `json:"idle_sec,omitempty"`               // after the initial sync nothing happens for this many seconds (the sync manager's periodic sync-peer check runs every 30 s and judges a quiet peer after three of them)
 	HeldWebhook         bool           `json:"held_webhook,omitempty"`           // a webhook is registered whose endpoint accepts every delivery and answers none of them until the initial sync has been judged
 	DropNode0AfterSync  bool           `json:"drop_node0_after_sync,omitempty"`  // C06: node 0 drops all connections after the initial sync and stays unreachable; node 1 (a laggard that catches up) is the honest announcer from then on
 }
@@ -814,6 +815,13 @@ func Execute(s *Scenario, dir string) (res *Result) {
 	if x.hook != nil {
 		x.hook.Release()
 	}
+	if s.IdleSec > 0 {
+		time.Sleep(time.Duration(s.IdleSec) * time.Second)
+		x.count("idle_seconds_after_the_initial_sync", int64(s.IdleSec))
+		if !x.quiesce("after the idle period") {
+			return
+		}
+	}
 	x.scenarioSpecificChecks("after-initial-sync")
 	// announcements
 	for ai, a := range s.Announce {
@@ -1011,6 +1019,7 @@ func (x *runner) checkConverged() {
 		got, gh = tip.Hash.String(), tip.Height
 	}
 	x.count("stored_headers_at_end", int64(len(t)))
+	x.count("dial_attempts", int64(x.rig.DialCount()))
 	cls := x.class()
 	if missing > 0 {
 		x.fail("not-converged|"+cls+"|missing-honest-headers", fmt.Sprintf("at quiescence the store lacks %d of %d headers of the honest peer's best chain (first missing height %d); tip height %d", missing, len(x.w.Honest), firstMissing, gh))
